@@ -16,6 +16,7 @@ struct SymCtx
 	std::vector<std::string> pathcond;  // Bool terms decided along this run
 	std::vector<std::string> assume;    // side conditions (sqrt definitions, nonzero divisors given by the harness)
 	std::vector<int> decisions;
+	std::vector<std::string> divisors;  // numerator terms of every divisor used so far (x / (n/d) needs n != 0)
 	std::string prefix; size_t pos;
 	int nterm, nfresh;
 	SymCtx() : pos(0), nterm(0), nfresh(0) { const char* p = getenv("SYMREAL_DECISIONS"); prefix = p ? p : ""; }
@@ -54,7 +55,7 @@ public:
 	Sym operator-() const { return frac(T("(- " + n + ")"), d); }
 	Sym operator-(const Sym& b) const { return *this + (-b); }
 	Sym operator*(const Sym& b) const { Sym r = frac(mul(n, b.n), (d.empty() && b.d.empty()) ? "" : mul(den(), b.den())); return r; }
-	Sym operator/(const Sym& b) const { return frac(mul(n, b.den()), mul(den(), b.n)); }      // divisor b.n must be nonzero (assumed through nonsingularity)
+	Sym operator/(const Sym& b) const { SymCtx::get().divisors.push_back(b.n); return frac(mul(n, b.den()), mul(den(), b.n)); }      // divisor b.n must be nonzero: recorded, claims can require it
 	Sym& operator+=(const Sym& b) { *this = *this + b; return *this; }
 	Sym& operator-=(const Sym& b) { *this = *this - b; return *this; }
 	Sym& operator*=(const Sym& b) { *this = *this * b; return *this; }
@@ -106,6 +107,13 @@ inline Sym acos(const Sym&) { return sym_unsupported("acos"); }
 inline Sym asin(const Sym&) { return sym_unsupported("asin"); }
 inline Sym atan2(const Sym&, const Sym&) { return sym_unsupported("atan2"); }
 inline Sym floor(const Sym&) { return sym_unsupported("floor"); }
+// (and (not (= d 0)) ...) over every divisor recorded so far
+inline std::string sym_divisors_nonzero()
+{
+	SymCtx& c = SymCtx::get(); std::string r = "(and true";
+	for (size_t i = 0; i < c.divisors.size(); i++) if (c.divisors[i] != "1.0") r += " (not (= " + c.divisors[i] + " 0.0))";
+	return r + ")";
+}
 // emits one query: declarations, definitions, path condition, assumptions, negated claim
 inline void sym_emit(const char* name, const std::vector<std::string>& extra_assume, const std::string& claim)
 {
